@@ -14,7 +14,7 @@ var props = []prop{
 	{ID: "C16", Level: "exploration", Rule: "fuzz", RaceIsViolation: true, Parts: []part{{Name: "fuzz", Pkg: "rfc", Test: "TestFuzzC16", Race: true, Batches: [2]int{8, 16}, DeathIsViolation: true}}},
 	{ID: "C18", Level: "exploration", Rule: "fuzz", Parts: []part{{Name: "fuzz", Pkg: "rfc", Test: "TestFuzzC18", Race: true, Batches: [2]int{8, 16}}}},
 	{ID: "C03", Level: "exploration",
-		Rule: "bulk part: one case = a set of N URIs (seeded sets of 40 from component pools; thorough also the whole reduced grid) stored and looked up in one cache, which implies all N(N-1)/2 pairs; non-trivial = a pair the RFC 3986 classifier calls distinct (counted per distinct key pair) or, for grid chunks, each grid URI. methods part: each method / GET+Range against a populated cache. fuzz part: random histories with the C03 monitor on every exchange.",
+		Rule: "bulk part: one case = a set of N URIs (seeded sets of 40 from component pools; thorough also the whole reduced grid) stored and looked up in one cache, which implies all N(N-1)/2 pairs; non-trivial = a pair the RFC 3986 classifier calls distinct (distinct key pairs, counted on a 1/8 subsample of the pairs, so a lower bound) or, for grid chunks, each grid URI. methods part: each method / GET+Range against a populated cache. fuzz part: random histories with the C03 monitor on every exchange.",
 		Assumptions: []string{"harness RFC 3986 classifier (equivalent / distinct / unknown); pairs classified unknown are not judged"},
 		Parts: []part{
 			{Name: "bulk", Pkg: "rfc", Test: "TestC03Bulk", Batches: [2]int{8, 16}},
@@ -24,4 +24,8 @@ var props = []prop{
 	{ID: "C04", Level: "exploration", Rule: "fuzz", Parts: []part{{Name: "fuzz", Pkg: "rfc", Test: "TestFuzzC04", Batches: [2]int{8, 16}}}},
 	{ID: "C06", Level: "exploration", Rule: "fuzz", Parts: []part{{Name: "fuzz", Pkg: "rfc", Test: "TestFuzzC06", Batches: [2]int{8, 16}}}},
 	{ID: "C07", Level: "exploration", Rule: "fuzz", Parts: []part{{Name: "fuzz", Pkg: "rfc", Test: "TestFuzzC07", Batches: [2]int{8, 16}}}},
+	{ID: "C09", Level: "exploration",
+		Rule: "one case = (freshness source, status, backend, equivalent URI spelling pair, equivalent selecting-header pair, non-invalidating noise, elapsed time inside the lifetime by >= 2 s, harmless request directive); the follow-up must be answered from the store without origin contact with the stored token. Every executed case exercises the antecedent; distinct = distinct parameter tuples.",
+		Assumptions: []string{"the generator only uses equivalences the cache documents (RFC 3986 6.2.2-6.2.3; header normalisation classes of internal/normalization.go)"},
+		Parts: []part{{Name: "scenario", Pkg: "rfc", Test: "TestC09", Batches: [2]int{8, 16}}}},
 }
